@@ -14,6 +14,7 @@ import (
 // program order), lines holds declare-const/assert in program order. An obligation
 // is checked against preamble + lines[:at].
 type Emitter struct {
+	zeroArrs  map[string]bool
 	preamble  []string
 	preSeen   map[string]bool
 	lines     []string
@@ -31,18 +32,18 @@ type Emitter struct {
 }
 
 type Obligation struct {
-	Name   string
-	Kind   string
-	At     int    // number of lines in scope
-	PC     string // path condition term
-	Goal   string // must hold under PC
-	Pos    string
-	Result string // unsat|sat|unknown|timeout
-	Solver string
-	Ms     int64
-	Model  string
-	Func   string
-	Extra  []string // extra lines only for this obligation (e.g. hints)
+	Name       string
+	Kind       string
+	At         int    // number of lines in scope
+	PC         string // path condition term
+	Goal       string // must hold under PC
+	Pos        string
+	Result     string // unsat|sat|unknown|timeout
+	Solver     string
+	Ms         int64
+	Model      string
+	Func       string
+	Extra      []string // extra lines only for this obligation (e.g. hints)
 	File       string
 	Disagree   bool
 	AllSolvers string
@@ -304,7 +305,7 @@ func (e *Emitter) zeroOf(t types.Type) string {
 	case *types.Slice:
 		return "(mkSlice 0 0 0 0)"
 	case *types.Array:
-		return fmt.Sprintf("((as const %s) %s)", e.sortOf(t), e.zeroOf(u.Elem()))
+		return e.constArray(e.sortOf(u.Elem()), e.zeroOf(u.Elem()))
 	case *types.Struct:
 		name := e.structSort(t, u)
 		if u.NumFields() == 0 {
@@ -569,4 +570,27 @@ func sortedKeys[V any](m map[string]V) []string {
 	}
 	sort.Strings(ks)
 	return ks
+}
+
+// constArray: the array that maps every index to zero.  cvc5 only accepts (as const ...) over
+// value literals, so for element sorts whose zero is a declared constant (strings) the array
+// is a declared constant with an axiom.
+func (e *Emitter) constArray(elemSort, zero string) string {
+	switch elemSort {
+	case "Int", "Real", "Bool":
+		return fmt.Sprintf("((as const (Array Int %s)) %s)", elemSort, zero)
+	}
+	if (strings.HasPrefix(zero, "(") || zero == "0") && !strings.Contains(zero, "str_empty") {
+		return fmt.Sprintf("((as const (Array Int %s)) %s)", elemSort, zero)
+	}
+	n := "zeroarr_" + sanitize(elemSort)
+	if e.zeroArrs == nil {
+		e.zeroArrs = map[string]bool{}
+	}
+	if !e.zeroArrs[n] {
+		e.zeroArrs[n] = true
+		e.pre(fmt.Sprintf("(declare-const %s (Array Int %s))", n, elemSort))
+		e.pre(fmt.Sprintf("(assert (forall ((i Int)) (! (= (select %s i) %s) :pattern ((select %s i)))))", n, zero, n))
+	}
+	return n
 }
